@@ -111,6 +111,15 @@ def run_shard(spec):
         res["distinct"].append("s" + s)
         if i < 2:
             res["samples"].append(case)
+    # --- 3b. a '\x' escape takes the two characters right after it: nothing in between may be skipped (text that vanished
+    #         could not be refused)
+    if part == 0:
+        for src in ['.ascii "a\\x 41"\n', '.ascii "\\x;∀∀\n41"\n', ".word '\\x 41\n", '.ascii "\\x\t41"\n', '.asciz "\\x\n4 1"\n', '.ascii "\\x ; c\n41" "é"\n',
+                    '.word "\\x 41\\x 42\n']:
+            case = {"kind": "xgap", "src": src}
+            res["violations"].extend(run_case(case, cnt))
+            res["evaluations"] += 1
+            res["distinct"].append("xgap" + src)
     # --- 4. assembly-level leg
     nasm = (800 if spec["tier"] == "quick" else 12000) // parts + 1
     for i in range(nasm):
@@ -237,6 +246,12 @@ def run_case(case, cnt=None):
                 viol(f"error range {ex.start}..{ex.end} not inside the string of length {len(s)}")
         except Exception as ex:  # pylint: disable=broad-except
             viol(f"encode raised {type(ex).__name__}: {ex}")
+    elif case["kind"] == "xgap":
+        o = asm.assemble([("/c14/main.mac", case["src"])], charset="bk", wall=30)
+        if cnt is not None:
+            cnt["escape_gap_cases"] = cnt.get("escape_gap_cases", 0) + 1
+        if o.cls != "fail" or "invalid-escape" not in o.ids("error"):
+            viol(f"{case['src']!r}: the hex digits of '\\x' do not follow it directly; expected invalid-escape, got {o.brief()}")
     elif case["kind"] == "asm":
         mode, chars = case["mode"], case["chars"]
         bad = any(c not in ref_chars for c in chars)
